@@ -24,7 +24,9 @@ the pinned code loses that id (`load_max_id_counterexample`, known finding F7a).
                                           over exactly once while leftovers are deleted under the iteration, and
                                           afterwards storage and cache hold the same regions, pairwise compatible
 * `load_regions_once_flag`                LoadRegionsOnce marks the storage as loaded exactly when the load succeeded
-* `flush_makes_saved_visible`             region backend (repaired): after a flush `LoadRegion` returns for every id
+* `flush_makes_saved_visible`             region backend (repaired), histories may contain flushes and batch-filling
+                                          saves whose leveldb write fails (`flushF`, `saveF`: nothing is dropped, the
+                                          next successful flush writes the batch): after a flush `LoadRegion` returns for every id
                                           what was saved last and not deleted, for every save/delete/flush history
                                           and every batch size (automatic flushes included)
 * `saved_not_deleted_exact_region_backend_partial`  and a full load returns exactly those, once each
@@ -330,16 +332,24 @@ inductive ROp where
   | save (m : Meta)
   | delete (id : Nat)
   | flush
+  /-- `SaveRegion` while the leveldb write fails (an error is returned if this save fills the batch) -/
+  | saveF (m : Meta)
+  /-- a flush whose leveldb write fails -/
+  | flushF
 
 def ROp.id : ROp → Nat
   | .save m => m.id
   | .delete id => id
   | .flush => 0
+  | .saveF m => m.id
+  | .flushF => 0
 
 def rstep (s : RS) : ROp → RS
   | .save m => s.save m
   | .delete id => s.delete id
   | .flush => s.flush
+  | .saveF m => (s.saveFailed m).1
+  | .flushF => s.flushFailed
 
 def runRS (s : RS) (ops : List ROp) : RS := ops.foldl rstep s
 
@@ -349,6 +359,8 @@ def toKOps : List ROp → List (KOp Meta)
   | .save m :: ops => .save m.id m :: toKOps ops
   | .delete id :: ops => .delete id :: toKOps ops
   | .flush :: ops => toKOps ops
+  | .saveF m :: ops => .save m.id m :: toKOps ops
+  | .flushF :: ops => toKOps ops
 
 structure RSInv (s : RS) : Prop where
   bok  : BatchOk s.batch
@@ -378,6 +390,19 @@ theorem rs_flush_inv (s : RS) (h : RSInv s) : RSInv s.flush ∧ ∀ j, viewGet s
   simp only [viewGet, RS.flush, batchGet, List.find?_nil, Option.map_none]
   rw [kvLoad_flush s.batch h.bok h.bk s.ldb h.lk j]
   rfl
+
+theorem rs_put_inv (s : RS) (h : RSInv s) (m : Meta) (hid : m.id ≤ maxU64) :
+    RSInv { s with batch := batchPut s.batch m.id m } ∧
+    ∀ j, viewGet { s with batch := batchPut s.batch m.id m } j = if j = m.id then some m else viewGet s j := by
+  refine ⟨⟨batchOk_put _ h.bok _ _, ?_, h.lk, h.srt⟩, fun j => ?_⟩
+  · intro e he
+    unfold batchPut at he
+    rcases List.mem_append.1 he with h' | h'
+    · exact h.bk e (List.mem_filter.1 h').1
+    · simp at h'; rw [h']; exact hid
+  · simp only [viewGet]
+    rw [batchGet_put]
+    by_cases hj : j = m.id <;> simp [hj]
 
 theorem rs_step_inv (s : RS) (h : RSInv s) (op : ROp) (hid : op.id ≤ maxU64) (pre : List ROp)
     (hv : ∀ j, viewGet s j = specGet (toKOps pre) j) :
@@ -436,6 +461,28 @@ theorem rs_step_inv (s : RS) (h : RSInv s) (op : ROp) (hid : op.id ≤ maxU64) (
       by_cases hj : j = m.id
       · simp [hj]
       · simp only [hj, if_false]; exact hv j
+  | flushF =>
+    refine ⟨h, fun j => ?_⟩
+    simp only [rstep, RS.flushFailed]
+    rw [htk]; simp [toKOps, hv]
+  | saveF m =>
+    simp only [ROp.id] at hid
+    have hput := rs_put_inv s h m hid
+    rw [htk]
+    simp only [toKOps, rstep, RS.saveFailed, RS.flushFailed]
+    have hview : ∀ j, viewGet { s with batch := batchPut s.batch m.id m } j =
+        specGet (toKOps pre ++ [KOp.save m.id m]) j := by
+      intro j
+      rw [hput.2, specGet_snoc]
+      by_cases hj : j = m.id
+      · simp [hj]
+      · simp only [hj, if_false]; exact hv j
+    split
+    · refine ⟨⟨hput.1.bok, hput.1.bk, h.lk, h.srt⟩, fun j => ?_⟩
+      have := hview j
+      simp only [viewGet] at this ⊢
+      exact this
+    · exact ⟨hput.1, hview⟩
 
 theorem rs_run_inv (ops : List ROp) :
     ∀ (pre : List ROp) (s : RS), (∀ op ∈ ops, op.id ≤ maxU64) → RSInv s →
@@ -510,6 +557,15 @@ theorem saved_not_deleted_exact_region_backend_partial (batchSize : Nat) (ops : 
           · exact ⟨.delete id, by simp, rfl⟩
           · obtain ⟨o, ho, hoi⟩ := ih k hk
             exact ⟨o, by simp [ho], hoi⟩
+        | flushF =>
+          obtain ⟨o, ho, hoi⟩ := ih k (by simpa [toKOps] using hk)
+          exact ⟨o, by simp [ho], hoi⟩
+        | saveF m =>
+          simp only [toKOps, List.mem_cons] at hk
+          rcases hk with rfl | hk
+          · exact ⟨.saveF m, by simp, rfl⟩
+          · obtain ⟨o, ho, hoi⟩ := ih k hk
+            exact ⟨o, by simp [ho], hoi⟩
     obtain ⟨o, ho, hoi⟩ := this ops k hk
     have := hid o ho
     omega
@@ -522,6 +578,8 @@ def ROp.touches (op : ROp) (j : Nat) : Prop :=
   | .save m => m.id = j
   | .delete id => id = j
   | .flush => False
+  | .saveF m => m.id = j
+  | .flushF => False
 
 theorem rs_flush_frame (s : RS) (h : RSInv s) (j : Nat) (hn : batchGet s.batch j = none) :
     batchGet s.flush.batch j = none ∧ kvLoad s.flush.ldb j = kvLoad s.ldb j := by
@@ -556,6 +614,16 @@ theorem rs_step_frame (s : RS) (h : RSInv s) (op : ROp) (hid : op.id ≤ maxU64)
     split
     · exact ⟨⟨hput.bok, hput.bk, h.lk, h.srt⟩, hn', rfl⟩
     · exact ⟨(rs_flush_inv _ hput).1, rs_flush_frame _ hput j hn'⟩
+  | flushF => exact ⟨h, hn, rfl⟩
+  | saveF m =>
+    simp only [ROp.id] at hid
+    have hne : ¬ j = m.id := fun e => hnt e.symm
+    have hput := (rs_put_inv s h m hid).1
+    have hn' : batchGet (batchPut s.batch m.id m) j = none := by rw [batchGet_put]; simp [hne, hn]
+    simp only [rstep, RS.saveFailed, RS.flushFailed]
+    split
+    · exact ⟨⟨hput.bok, hput.bk, h.lk, h.srt⟩, hn', rfl⟩
+    · exact ⟨hput, hn', rfl⟩
 
 /-- **A stop between batches loses nothing that was flushed.**  Region backend in any reachable state with
     an empty batch (i.e. right after a flush or close), then any further operations and a stop of the process
